@@ -75,48 +75,48 @@ N_THOROUGH = 6000
 
 SPECS = {
     "C01": S(profiles=[("core-mix", 1.0)], projection="PExec",
-             chk="fun c => chk_C01 (cs_cfg c) (cs_beh c) (cs_hist c) (cs_impl c)",
+             chk="fun c obs => chk_C01 (cs_cfg c) (cs_beh c) (cs_hist c) obs",
              rule="a history is non-trivial when some Invoke executed a constructor or decorator whose value reached a consumer; distinct = distinct canonical JSON"),
     "C02": S(profiles=[("singleton", 0.7), ("core-mix", 0.3)], projection="PExecSet",
-             chk="fun c => chk_C02 (cs_hist c) (cs_impl c)",
+             chk="fun c obs => chk_C02 (cs_hist c) obs",
              rule="non-trivial: some function is demanded by at least two Invokes or through two paths (>=2 Invokes and >=1 execution)"),
     "C03": S(profiles=[("bystanders", 1.0)], projection="PExecSet",
-             chk="fun c => chk_C03 (cs_hist c) (cs_impl c)",
+             chk="fun c obs => chk_C03 (cs_hist c) obs",
              rule="non-trivial: at least one accepted constructor is never executed while some Invoke succeeds"),
     "C04": S(profiles=[("gaps", 1.0)], projection="PExec",
-             chk="fun c => chk_C04 (cs_cfg c) (cs_beh c) (cs_hist c) (cs_impl c)",
+             chk="fun c obs => chk_C04 (cs_cfg c) (cs_beh c) (cs_hist c) obs",
              rule="non-trivial: some Invoke is rejected with a missing-type root or some optional parameter received a zero value"),
     "C05": S(profiles=[("cycles", 1.0)], projection="PVerdict",
-             chk="fun c => chk_C05 (cs_cfg c) (cs_hist c) (cs_impl c)",
+             chk="fun c obs => chk_C05 (cs_cfg c) (cs_hist c) obs",
              requires=CORE + ["GraphProofs"],
              rule="non-trivial: some Provide or Invoke reported a cycle, or >=3 constructors were accepted across >=2 scopes; graph level: every digraph counts"),
     "C06": S(profiles=[("rejections", 1.0)], projection="PExec", twin="drop-rejected",
              chk2="fun c t p => chk_C06 (cs_hist c) (cs_impl c) t",
              rule="non-trivial: at least one Provide/Decorate was rejected and a later Invoke executed something"),
     "C07": S(profiles=[("faults", 1.0)], projection="PExec",
-             chk="fun c => chk_C07 (cs_cfg c) (cs_hist c) (cs_impl c)",
+             chk="fun c obs => chk_C07 (cs_cfg c) (cs_hist c) obs ++ chk_prov (cs_beh c) (cs_hist c) obs",
              rule="non-trivial: some user function failed (error or panic) and a later Invoke demanded it again"),
     "C08": S(profiles=[("trees", 1.0)], projection="PExec",
-             chk="fun c => chk_C08 (cs_beh c) (cs_hist c) (cs_impl c)",
+             chk="fun c obs => chk_C08 (cs_beh c) (cs_hist c) obs",
              rule="non-trivial: >=3 scopes and some Invoke from a non-root scope executed a constructor"),
     "C09": S(profiles=[("keys", 1.0)], projection="PExec",
-             chk="fun c => chk_C09 (cs_beh c) (cs_hist c) (cs_impl c)",
+             chk="fun c obs => chk_C09 (cs_beh c) (cs_hist c) obs",
              rule="non-trivial: a Provide was rejected as duplicate, or named/As/group keys of one type coexist and a consumer ran"),
     "C10": S(profiles=[("groups", 1.0)], projection="PExec",
-             chk="fun c => chk_C10 (cs_beh c) (cs_hist c) (cs_impl c)",
+             chk="fun c obs => chk_C10 (cs_beh c) (cs_hist c) obs",
              rule="non-trivial: a non-soft group parameter with >=1 visible feeder was built"),
     "C11": S(profiles=[("soft", 1.0)], projection="PExec",
-             chk="fun c => chk_C11 (cs_beh c) (cs_hist c) (cs_impl c)",
+             chk="fun c obs => chk_C11 (cs_beh c) (cs_hist c) obs",
              rule="non-trivial: a soft group parameter was built while the group has >=1 registered feeder"),
     "C12": S(profiles=[("decor", 1.0)], projection="PExec",
-             chk="fun c => chk_C12 (cs_beh c) (cs_hist c) (cs_impl c)",
+             chk="fun c obs => chk_C12 (cs_beh c) (cs_hist c) obs",
              rule="non-trivial: a decorator executed and some consumer received its output"),
     "C13": S(profiles=[("faults", 0.5), ("gaps", 0.25), ("cycles", 0.25)], projection="PChain", flags=True,
              requires=CORE + ["ErrCauseCheck"],
              rule="non-trivial: some operation returned an error (each distinct chain shape counts)"),
     "C14": S(profiles=[("rejections", 0.6), ("core-mix", 0.4)], projection="PVerdict",
              requires=CORE + ["GoTypes", "Parse", "RunRaw"],
-             chk="fun c => chk_C14 (cs_hist c) (cs_impl c)",
+             chk="fun c obs => chk_C14 (cs_hist c) obs",
              rule="non-trivial: the history contains a malformed input (bad op)"),
     "C15": S(profiles=[("core-mix", 0.5), ("keys", 0.25), ("groups", 0.25)], projection="PExec", twin="encode",
              chk2="fun c t p => chk_C15 (cs_impl c) t",
@@ -129,14 +129,14 @@ SPECS = {
              rule="non-trivial: the normal twin executed at least one user function"),
     "C18": S(profiles=[("core-mix", 0.15)], projection="PVerdict", scale=0.3,
              requires=CORE + ["GoTypes", "Parse", "RunRaw"],
-             chk="fun c => []",
+             chk="fun c obs => []",
              rule="non-trivial: a raw Provide/Decorate/Invoke was accepted and its Info struct has at least one entry (counted in grammar_stream.accepted_operations_with_info)"),
     "C19": S(profiles=[("core-mix", 0.1)], projection="PVerdict", scale=0.2,
              requires=CORE + ["Dot", "RunViz"],
-             chk="fun c => []",
+             chk="fun c obs => []",
              rule="non-trivial: a history over declared functions whose final graph has at least one cluster (each recorded DOT text is parsed and compared; error graphs counted in visualize.error_graphs)"),
     "C20": S(profiles=[("callbacks", 1.0)], projection="PFull",
-             chk="fun c => chk_C20 (cs_cfg c) (cs_dur c) (cs_hist c) (cs_impl c)",
+             chk="fun c obs => chk_C20 (cs_cfg c) (cs_dur c) (cs_hist c) obs",
              rule="non-trivial: a function with a callback was executed"),
 }
 
@@ -396,6 +396,8 @@ def coq_source(spec, cases, traces, twins):
     else:
         defs.append(f"Definition M := Eval vm_compute in mism_all {k} all_cases.")
         defs.append(f"Definition V := Eval vm_compute in viol_all ({spec['chk']}) all_cases.")
+        defs.append(f"Definition W := Eval vm_compute in viol_all_model ({spec['chk']}) all_cases.")
+        defs.append("Print W.")
     defs += ["Print M.", "Print V."]
     return emit.cases_file(list(zip(cases, traces)), extra=extra, defs=defs)
 
